@@ -68,7 +68,8 @@ def _kf_bbox_tiny(case, bucket, message, details, config):
 @matcher('cubic_near_cusp_scipy_quad')
 def _kf_cubic_near_cusp(case, bucket, message, details, config):
     """C06: CubicBezier.length through scipy.integrate.quad on a cubic whose speed dips to between 1e-4 and 1e-2 of
-    its maximum (a narrow V-shaped kink of |B'(t)| that quad's error estimate does not see)."""
+    its maximum (a narrow V-shaped kink of |B'(t)| that quad's error estimate does not see; the thorough tier
+    showed deviations of 3e-6..5e-5 up to a dip ratio of 4e-2, so the class is min speed in (1e-4, 5e-2) x max speed)."""
     if config != 'scipy':
         return False
     if not any(bucket.startswith('C06/' + b) for b in ('outside_bracket/C', 'vs_quadrature/C', 'additivity/C')):
@@ -83,7 +84,7 @@ def _kf_cubic_near_cusp(case, bucket, message, details, config):
             continue
         cp = [gen.C(p) for p in spec[1:]]
         vmin, tmin, vmax = c06.bez_speed_min(cp, 0.0, 1.0)
-        if vmax > 0 and 1e-4 * vmax < vmin < 1e-2 * vmax:
+        if vmax > 0 and 1e-4 * vmax < vmin < 5e-2 * vmax:
             return True
     return False
 
